@@ -48,7 +48,7 @@ def race_clause(res, work, tier, seed):
                 vlib.stage_specs(d)
                 meta = vlib.read_meta(d)
                 trace = os.path.join(d, "trace.ndjson")
-                fails, r = vlib.tlc_trace(d, "MCM3ObsTrace.tla", "M3ObsTrace.cfg", trace, meta["events"], timeout=3000)
+                fails, r = vlib.tlc_trace(d, "MCM3ObsTrace.tla", "M3ObsTrace.cfg", trace, meta["events"], timeout=3000, boundary='"e":"scn"')
                 if r["violated"] or not r["consumed"]:
                     raise vlib.Infra("M3ObsTrace did not consume the free-running trace: %s\n%s" % (r["violated"], r["out"][-3000:]))
                 res.add_trace_run("M3ObsTrace free-running histories (race-detector build)", r, meta["cases"], meta["events"])
